@@ -10,6 +10,7 @@ A sys.addaudithook runs alongside and counts mutating events on sandbox paths th
 pass through the shim (an unmonitored mutation makes a run inconclusive, not silently blind).
 """
 import os
+import weakref
 import io
 import re
 import sys
@@ -117,6 +118,23 @@ class _inshim(object):
 # file proxies
 # --------------------------------------------------------------------------- #
 
+_BY_FD = {}      # fileno of a monitored file open for writing -> weak reference to its proxy
+
+
+def _sendfile(out_fd, in_fd, offset, count, *a, **k):
+    """os.sendfile (shutil's fast copy path): a copy INTO a monitored file is not one atomic step - the data goes through
+    the proxy, i.e. arrives in the chunks (with an event before each) that a crash or a concurrent reader can observe."""
+    ref = _BY_FD.get(out_fd)
+    prox = ref() if ref is not None else None
+    if prox is None or prox._closed or offset is None:
+        return _real["os.sendfile"](out_fd, in_fd, offset, count, *a, **k)
+    data = os.pread(in_fd, count, offset)
+    if data:
+        prox.write(data)
+        prox.flush()
+    return len(data)
+
+
 class _WProxy(object):
     """Binary writer with the REAL buffering semantics of open(..., "wb"): data written by the
     program sits in a user-space buffer (lost by a kill, invisible to other processes) until the
@@ -131,6 +149,10 @@ class _WProxy(object):
         self._closed = False
         self._off = 0
         self._buf = bytearray()
+        try:
+            _BY_FD[raw.fileno()] = weakref.ref(self)
+        except Exception:
+            pass
 
     def write(self, b):
         mv = memoryview(b).cast("B") if not isinstance(b, (bytes, bytearray)) else memoryview(b)
@@ -389,6 +411,9 @@ def install(root, handler=None):
     os.rename = _wrap_path_fn("os.rename", "rename", two=True)
     os.replace = _wrap_path_fn("os.replace", "rename", two=True)
     os.open = _os_open
+    if hasattr(os, "sendfile"):
+        _real["os.sendfile"] = os.sendfile
+        os.sendfile = _sendfile
     _install_h5()
     if not _state["audit"]:
         sys.addaudithook(_audit)
